@@ -9,21 +9,6 @@ variable {F : Type}
 
 /-! ### `purge` -/
 
-theorem dlookup_eraseAll {α : Type} (names : List String) (k : String) :
-    ∀ l : List (String × α),
-      dlookup k (names.foldl (fun d n => derase n d) l) = if k ∈ names then none else dlookup k l := by
-  induction names with
-  | nil => intro l; simp
-  | cons n r ih =>
-    intro l
-    rw [List.foldl_cons, ih, dlookup_derase]
-    by_cases h1 : k ∈ r
-    · simp [h1]
-    · by_cases h2 : n = k
-      · subst h2; simp
-      · have : ¬ k = n := fun e => h2 e.symm
-        simp [h1, h2, this]
-
 /-- `purgeNames` changes nothing but the entries stored under `names` … -/
 theorem purgeNames_agree (names : List String) (cs : List (Candle F)) :
     AgreeOff names cs (purgeNames names cs) := by
@@ -39,6 +24,15 @@ theorem purgeNames_removes (names : List String) (cs : List (Candle F)) (c : Can
   unfold purgeNames at hc
   obtain ⟨c0, _, rfl⟩ := List.mem_map.1 hc
   simp [dlookup_eraseAll, hk]
+
+/-- `purge` is invisible once the purged names are dropped (strong form of `purgeNames_agree`) -/
+theorem purgeNames_stripEq (names : List String) (cs : List (Candle F)) :
+    StripEq names cs (purgeNames names cs) := by
+  unfold StripEq
+  rw [purgeNames_eq_map_strip, List.map_map]
+  apply List.map_congr_left
+  intro c _
+  exact (strip_strip_of_subset (fun _ h => h) c).symm
 
 theorem purgeNames_length (names : List String) (cs : List (Candle F)) :
     (purgeNames names cs).length = cs.length := by simp [purgeNames]
@@ -71,7 +65,11 @@ candles changed only under the names of the tree -/
 structure IndState.Local (s s' : IndState F) : Prop where
   tree : s'.tree = s.tree
   cfg : s'.mgr.cfg = s.mgr.cfg
-  agree : AgreeOff s.tree.allNames s.mgr.candles s'.mgr.candles
+  stripEq : StripEq s.tree.allNames s.mgr.candles s'.mgr.candles
+
+omit [PyF F] in
+theorem IndState.Local.agree {s s' : IndState F} (h : IndState.Local s s') :
+    AgreeOff s.tree.allNames s.mgr.candles s'.mgr.candles := h.stripEq.agreeOff
 
 theorem IndState.calculate_local (s s' : IndState F) (h : s.calculate = .ok s') : IndState.Local s s' := by
   unfold IndState.calculate at h
@@ -80,8 +78,8 @@ theorem IndState.calculate_local (s s' : IndState F) (h : s.calculate = .ok s') 
   obtain ⟨cs2, h2, h⟩ := bind_ok h
   obtain ⟨cs3, h3, h⟩ := bind_ok h
   cases h
-  exact ⟨rfl, rfl, ((calcSubs_writes_only _ _ _ _ _ _ h1).ofSubs.trans
-    (calcLoop_writes_only _ _ _ _ _ _ h2)).trans (calcSubs_writes_only _ _ _ _ _ _ h3).ofSubs⟩
+  exact ⟨rfl, rfl, ((calcSubs_stripEq _ _ _ _ _ _ h1).ofSubs.trans
+    (calcLoop_stripEq _ _ _ _ _ _ h2)).trans (calcSubs_stripEq _ _ _ _ _ _ h3).ofSubs⟩
 
 theorem IndState.calculateIndex_local (s s' : IndState F) (start : Int) (end_ : Option Int)
     (h : s.calculateIndex start end_ = .ok s') : IndState.Local s s' := by
@@ -89,16 +87,16 @@ theorem IndState.calculateIndex_local (s s' : IndState F) (start : Int) (end_ : 
   dsimp only at h
   obtain ⟨cs1, h1, h⟩ := bind_ok h
   cases h
-  exact ⟨rfl, rfl, calculateIndex_writes_only _ _ _ _ _ _ h1⟩
+  exact ⟨rfl, rfl, calculateIndex_stripEq _ _ _ _ _ _ h1⟩
 
 omit [PyF F] in
 theorem IndState.purge_local (s : IndState F) : IndState.Local s s.purge :=
-  ⟨rfl, rfl, purgeNames_agree _ _⟩
+  ⟨rfl, rfl, purgeNames_stripEq _ _⟩
 
 omit [PyF F] in
 theorem IndState.Local.trans {s s' s'' : IndState F} (h1 : IndState.Local s s') (h2 : IndState.Local s' s'') :
     IndState.Local s s'' :=
-  ⟨h2.tree.trans h1.tree, h2.cfg.trans h1.cfg, h1.agree.trans (h1.tree ▸ h2.agree)⟩
+  ⟨h2.tree.trans h1.tree, h2.cfg.trans h1.cfg, h1.stripEq.trans (h1.tree ▸ h2.stripEq)⟩
 
 theorem IndState.recalculate_local (s s' : IndState F) (h : s.recalculate = .ok s') : IndState.Local s s' :=
   (IndState.purge_local s).trans (IndState.calculate_local _ _ h)
